@@ -34,6 +34,8 @@ class Target(object):
         self.hi = self.mu + desc['half_width']
         self.rate = 5.0
         self.ncalls = 0
+        # additive constant of the (unnormalised) log-target: a log-likelihood over many observations is uniformly huge
+        self.offset = float(desc.get('offset', 0.0))
 
     def inside(self, x):
         k = self.kind
@@ -53,13 +55,13 @@ class Target(object):
         if not self.inside(x):
             return float('nan') if self.kind in ('nan-region', 'nan-half') else -float('inf')
         if self.kind == 'flat-box':
-            return 0.0
+            return 0.0 + self.offset
         if self.kind == 'exp':
-            return float(-self.rate * x.sum())
+            return float(-self.rate * x.sum()) + self.offset
         if self.kind == 'nan-region':
             # a log-target built on log(): NaN outside its domain
-            return float(-0.5 * (x - self.mu).dot(self.Pm).dot(x - self.mu) + 0.1 * math.log(x[0] - self.mu[0] + 1.0))
-        return float(-0.5 * (x - self.mu).dot(self.Pm).dot(x - self.mu))
+            return float(-0.5 * (x - self.mu).dot(self.Pm).dot(x - self.mu) + 0.1 * math.log(x[0] - self.mu[0] + 1.0)) + self.offset
+        return float(-0.5 * (x - self.mu).dot(self.Pm).dot(x - self.mu)) + self.offset
 
     def grad(self, x):
         x = np.asarray(x, dtype=float).reshape(-1)
@@ -90,6 +92,7 @@ def target_desc():
     return st.fixed_dictionaries({
         'kind': st.sampled_from(KINDS), 'd': st.integers(1, 4), 'seed': st.integers(0, 10 ** 6),
         'mu_scale': st.sampled_from([0.0, 1.0, 5.0]), 'half_width': st.sampled_from([0.5, 1.0, 3.0]),
+        'offset': st.sampled_from([0.0, 0.0, 0.0, -1e6, 3e7]),
     })
 
 
@@ -300,7 +303,7 @@ def run_moments_thorough(case):
 CHECK = Check(
     P, 'exploration',
     rule=('metropolis: Hypothesis-generated log-targets (Gaussian with random mean/precision in 1-4 dims; the same times a box indicator; '
-          'half-space; a target returning NaN outside its domain; flat box; exponential on the positive orthant), valid starting points '
+          'half-space; a target returning NaN outside its domain; flat box; exponential on the positive orthant; each optionally with an additive constant of -1e6 / 3e7), valid starting points '
           '(optionally next to the boundary), scalar or per-dimension proposal scales, warm-up 0-20, 1-80 states, seeds; the returned '
           'chain must be bit-equal to an independent implementation replaying RandomState(seed). nuts: n_iter 2-120, n_adapt, max_depth, whole-number start points also handed over as int64 arrays (same chain as from float64 required), '
           'row count, determinism, finite log-target at every returned state. moments: chains of 12000 (NUTS) / 48000 (Metropolis) draws '
